@@ -48,6 +48,75 @@ func VH_C09_Parse_Union() { vhC09Parse[vgUnion](vhUnionCfg) }
 func VH_C09_Parse_Fold()  { vhC09Parse[vgFold](vhFoldA) }
 func VH_C09_Parse_Leak()  { vhC09Parse[vgLeak](vhNoElide) }
 
+// VH_C09_Parse_Retained: what an earlier Parse returned (token slices
+// included: node Tokens fields and []lexer.Token captures point into the
+// token buffer of that parse) is not changed by a later Parse of a different
+// input through the same parser.
+func vhOtherStream() []lexer.Token {
+	var toks []lexer.Token
+	types := []lexer.TokenType{vhTA, vhTB, vhTC, vhTB, vhTWs, vhTB}
+	for i, ty := range types {
+		toks = append(toks, lexer.Token{Type: ty, Value: "z", Pos: lexer.Position{Filename: "g", Offset: 100 + i, Line: 2, Column: i + 1}})
+	}
+	return append(toks, lexer.EOFToken(lexer.Position{Filename: "g", Offset: 100 + len(types), Line: 2, Column: len(types) + 1}))
+}
+
+func VH_C09_Parse_Retained() {
+	toks := vhStream()
+	k := vInt("lookahead")
+	p := vhBuild[vgPos](vhElideWs, &vhStreamDef{toks: toks}, k)
+	vFreeze(p)
+	a1, e1 := p.ParseString("f", "", AllowTrailing(true))
+	if e1 != nil {
+		vReach("rejected")
+		return
+	}
+	keep := append([]lexer.Token(nil), a1.Tokens...)
+	var keepIn [][]lexer.Token
+	for _, in := range a1.In {
+		keepIn = append(keepIn, append([]lexer.Token(nil), in.Tokens...))
+	}
+	q := vhBuild[vgPos](vhElideWs, &vhStreamDef{toks: vhOtherStream()}, k)
+	_, _ = q.ParseString("g", "", AllowTrailing(true))
+	pt := vhBuild[vgTokens](vhElideWs, &vhStreamDef{toks: vhOtherStream()}, k)
+	_, _ = pt.ParseString("g", "", AllowTrailing(true))
+	vAssert(len(keep) == len(a1.Tokens), "C09: a later Parse changed the AST an earlier Parse returned")
+	for i := range keep {
+		vAssert(keep[i] == a1.Tokens[i], "C09: a later Parse changed the tokens an earlier Parse returned")
+	}
+	for j, in := range a1.In {
+		for i := range keepIn[j] {
+			vAssert(keepIn[j][i] == in.Tokens[i], "C09: a later Parse changed the tokens of a node an earlier Parse returned")
+		}
+	}
+	if len(keep) > 1 {
+		vReach("accepted")
+	}
+}
+
+func VH_C09_Parse_RetainedCapture() {
+	toks := vhStream()
+	k := vInt("lookahead")
+	p := vhBuild[vgTokens](vhElideWs, &vhStreamDef{toks: toks}, k)
+	vFreeze(p)
+	a1, e1 := p.ParseString("f", "", AllowTrailing(true))
+	if e1 != nil {
+		vReach("rejected")
+		return
+	}
+	t0 := a1.T
+	keep := append([]lexer.Token(nil), a1.R...)
+	q := vhBuild[vgTokens](vhElideWs, &vhStreamDef{toks: vhOtherStream()}, k)
+	_, _ = q.ParseString("g", "", AllowTrailing(true))
+	vAssert(t0 == a1.T && len(keep) == len(a1.R), "C09: a later Parse changed the AST an earlier Parse returned")
+	for i := range keep {
+		vAssert(keep[i] == a1.R[i], "C09: a later Parse changed the captured tokens an earlier Parse returned")
+	}
+	if len(keep) > 0 {
+		vReach("accepted")
+	}
+}
+
 // the trap itself must fire when shared state is written
 func VH_C09_Parse_Canary() {
 	toks := vhStream()
